@@ -127,6 +127,7 @@ func cmdCheck(args []string) {
 		// the tree does not load (does not compile, or a contract file is malformed): cannot show the property
 		printViolation(id+"#verifiable:load", map[string]interface{}{"error": err.Error()}, false)
 		writeEvidence(*verif, &cfg, *tier, seed, nil, nil, violations, time.Since(t0).Seconds(), nil, nil)
+		os.RemoveAll(*tmp)
 		os.Exit(1)
 	}
 	// select functions
@@ -404,6 +405,7 @@ func cmdCheck(args []string) {
 	if *verbose {
 		fmt.Printf("%s: %d obligations, %d discharged, %d known, %d violations, %.1fs\n", id, total, discharged, len(knownPrinted), violations, time.Since(t0).Seconds())
 	}
+	os.RemoveAll(*tmp)
 	if violations > 0 {
 		os.Exit(1)
 	}
